@@ -63,7 +63,8 @@ def concretise(s, models, texts, bigm_opts, rnd):
         c["opts"] += bigm_opts
     c["opts"] += {"none": [], "valid": ["tech:idummy=3"], "unknown": [rnd.choice(["foo=1", "tech:nosuchopt=2", "acc:nothing=0"])],
                   "illtyped": [rnd.choice(["tech:idummy=abc", "objno=x1", "tech:ddummy=1e"])], "objno_range": ["objno=7"],
-                  "solcount": ["sol:count=1"], "optfile_self": ["tech:optionfile=self.opt"], "optfile_missing": ["tech:optionfile=nosuchfile.opt"]}[s["opt"]]
+                  "solcount": ["sol:count=1"], "optfile_self": ["tech:optionfile=self.opt"], "optfile_missing": ["tech:optionfile=nosuchfile.opt"],
+                  "solstub": ["sol:stub=alt", "sol:count=1"]}[s["opt"]]
     if s["opt"] == "optfile_self":
         c["extra_files"] = {"self.opt": "tech:idummy=3\ntech:optionfile=self.opt\n"}
     nv, nc, no = len(m["vars"]), len(m.get("cons", [])), len(m.get("objs", []))
@@ -91,8 +92,8 @@ def run(tier):
     mc = tlc("MCDriver", "MCDriver.cfg", cwd=sd, workers=NPROC)
     tlc_must_pass(mc, "MCDriver")
     scen = printed_json(mc, "CASE")
-    if len(scen) != 3342:
-        raise Broken("expected 3342 scenarios, got %d" % len(scen))
+    if len(scen) != 3606:
+        raise Broken("expected 3606 scenarios, got %d" % len(scen))
     scen.sort(key=lambda s: json.dumps(s, sort_keys=True))
     exe = targets.get("h_drv")
     cfgs, acc = cvtcases.configs(exe)
@@ -106,7 +107,8 @@ def run(tier):
     for s in scen:
         for _ in range(reps):
             c = concretise(s, models, texts, bigm, rnd)
-            c.update(id=len(cases), answer="status 0 ok\nprimal auto\ndual auto\nobjvals 1\n", s=s)
+            c.update(id=len(cases), answer="status 0 ok\nprimal auto\ndual auto\nobjvals 1\n" + ("interm 3\n" if s["opt"] == "solstub" else ""), s=s,
+                     collect_sols="alt")
             cases.append(c)
     for c in cases:
         if c.get("no_nl"):
@@ -122,7 +124,12 @@ def run(tier):
              "sol": "ok" if s else ("malformed" if r["sol_present"] else "absent"),
              "code": s["code"] if s and s["code"] is not None else -1,
              "dimsOK": bool(s) and (s["nvars"], s["ncons"]) == c["dims"] and s["nprimal"] in (0, s["nvars"]) and s["ndual"] in (0, s["ncons"]),
-             "msgNonEmpty": bool(s and s["msg"].strip()), "stderrNonEmpty": bool(r["stderr"].strip()), "stdoutNonEmpty": bool(r["stdout"].strip())}
+             "msgNonEmpty": bool(s and s["msg"].strip()), "stderrNonEmpty": bool(r["stderr"].strip()), "stdoutNonEmpty": bool(r["stdout"].strip()),
+             "altN": len(r.get("alt", [])),
+             "altBad": sum(1 for a_ in r.get("alt", []) if not a_["sol"] or (a_["sol"]["nvars"], a_["sol"]["ncons"]) != c["dims"]
+                           or a_["sol"]["nprimal"] not in (0, a_["sol"]["nvars"]) or a_["sol"]["ndual"] not in (0, a_["sol"]["ncons"])),
+             "altSeq": [a_["name"] for a_ in r.get("alt", [])] == ["alt%d.sol" % (i_ + 1) for i_ in range(len(r.get("alt", [])))],
+             "nsol": next((int(sf["vals"].get(0, -1)) for sf in (s["suffixes"] if s else []) if sf["name"] == "nsol"), -1)}
         recs.append({"e": "Run", "id": c["id"], "s": c["s"], "o": o})
     res = validate_parallel("TraceDriver", "TraceDriver.cfg", recs, sd, "c09", chunks=4)
     verdicts = [v for r in res for v in printed_json(r, "VERDICT")]
@@ -141,6 +148,8 @@ def run(tier):
                         (s, c["args"] + c["opts"], w, r["rc"], recs[vd["id"]]["o"]["sol"], recs[vd["id"]]["o"]["code"], r["stderr"][:150], (r["sol"] or {}).get("msg", "")[:150]),
                         {"scenario": s, "args": c["args"] + c["opts"], "outcome": recs[vd["id"]]["o"], "nl": c.get("nl_bytes", b"").decode("latin-1")[:3000]})
     rcode, nnew = v.finish()
+    if rcode == 0 and not any(r_["o"]["altN"] == 3 and r_["o"]["nsol"] == 3 for r_ in recs):
+        raise Broken("no run produced the three further solution files (sol:stub scenarios vacuous)")
     write_evidence(PID, tier, {
         "states": mc.distinct + sum(r.distinct for r in res), "transitions": mc.generated + sum(r.generated for r in res),
         "traces_validated_against_impl": len(recs), "samples": [recs[0], recs[len(recs) // 2], recs[-1]],
